@@ -142,7 +142,7 @@ def lane(ctx):
     st["solver_s"] = detail.get("solver_s", 0) if isinstance(detail, dict) else 0
     st["crash_points_modelled"] = len(events) + 1
     if verdict == "unsat":
-        st["discharged"] = 1
+        st["discharged"] += 1
         # model validation against the implementation: really kill the stage at crash points and resume
         ks = list(range(len(events) + 1)) if ctx.get("tier") == "thorough" else sorted({0, len(events) // 2, detail["lock_event"], detail["lock_event"] + 1, len(events)})
         st["crash_points_replayed_for_real"] = len(ks)
